@@ -126,6 +126,13 @@ pub trait Prop: Sync {
     fn owns_crash(&self) -> bool {
         false
     }
+    /// Build configurations in which executions that could not be evaluated because the library panicked
+    /// ("aborted") are tolerated and only counted.  Everywhere else an aborted execution is reported as a
+    /// violation of the property under check (kind `no-answer`): every property quantifies over operation
+    /// sequences that complete, and on the unchanged tree no enumerated case of any check aborts.
+    fn tolerates_aborted(&self, _tier: Tier, _cfg: &str) -> bool {
+        false
+    }
     /// For a property whose very subject is reproducibility (C20) a failure that does not replay
     /// identically is still a failure: the replay rule then only requires that some replay shows a
     /// failure of the same kind.
@@ -139,6 +146,20 @@ pub trait Prop: Sync {
 
 thread_local! {
     pub static LAST_PANIC: std::cell::RefCell<String> = std::cell::RefCell::new(String::new());
+}
+
+/// run one case; aborted executions become `no-answer` failures unless the property tolerates them in this configuration
+pub fn exec_case(prop: &dyn Prop, tier: Tier, cfg: &str, seg: usize, idx: u64) -> Exec {
+    let mut e = prop.exec(tier, cfg, seg, idx);
+    if !e.aborted.is_empty() && !prop.tolerates_aborted(tier, cfg) {
+        let mut sites: Vec<String> = e.aborted.clone();
+        sites.sort();
+        sites.dedup();
+        for s in sites {
+            e.fail("no-answer", format!("the library panicked on an enumerated case, the property's queries have no answer: {s}"), String::new(), &[]);
+        }
+    }
+    e
 }
 
 pub fn install_panic_hook() {
@@ -288,7 +309,7 @@ pub fn worker_main(prop: &dyn Prop, args: &[String]) -> i32 {
             buf[8..16].copy_from_slice(&idx.to_le_bytes());
             buf[16..24].copy_from_slice(&seq.to_le_bytes());
             let _ = pf.write_at(&buf, 0);
-            let e = prop.exec(tier, &cfg, si, idx);
+            let e = exec_case(prop, tier, &cfg, si, idx);
             execs += 1;
             for f in &e.fps {
                 fps.insert(*f);
@@ -675,7 +696,7 @@ pub fn exec1_main(prop: &dyn Prop, args: &[String]) -> i32 {
     let cfg = &args[1];
     let seg: usize = args[2].parse().unwrap();
     let idx: u64 = args[3].parse().unwrap();
-    let e = prop.exec(tier, cfg, seg, idx);
+    let e = exec_case(prop, tier, cfg, seg, idx);
     let mut fs: Vec<Value> = e.failures.iter().map(|f| json!({"kind":f.kind,"key":f.key,"detail":f.detail})).collect();
     fs.sort_by_key(|v| v.to_string());
     let mut fps = e.fps.clone();
